@@ -135,7 +135,7 @@ ADD6 = {
          " (D.digits) every unwrap on a conversion of the number text sits where no float part was appended."),
  "C05": ("branch-condition stacks incl. short-circuit operands in lex_string (S2)",
          " (S2) after the closing quote of a plain literal nothing further is consumed: consuming calls on a quote character require triple_quoted on their path."),
- "C06": ("conversion inventory of parse_bytes (B2)",
+ "C06": ("conversion inventory of parse_bytes (B2); evaluation of lex_string's opening and closing quote decisions over (triple_quoted, two more quotes follow), following a private helper one level (S1); provenance of the value fields of Int/Float/Complex tokens (V1)",
          " (B2) decoded characters become bytes by `as u8` truncation only (an octal escape above \\377 keeps its low 8 bits)."),
  "C08": ("interpretation of compare_strict over the 3x3 partition of (tabs, spaces) directions (T1, shared with C04.L2)",
          " (T1) TabError exactly in the two mixed-direction cells; more tabs and more spaces is accepted."),
@@ -145,7 +145,7 @@ ADD6 = {
          " (H1) every field of a node rebuilt by a hand-written fold is derived from the same-named field of the incoming node."),
  "C13": ("guard analysis of every U+FEFF test in the line index and the linear locator, incl. a guard handed to a helper as a bool argument (B1b); str::lines inventory in the locator sources (T1)",
          " (B1b, reported as C13.B1) only a leading BOM is discounted, in both locators; (T1) no std `lines()` (which ignores a lone CR) in locator code."),
- "C19": ("evaluation of the minus-sign condition on -0.0, +/-inf, +/-NaN (S1); one-local rule for the precision-cut bytes (B1); consume_length interpreted for every next character; has_key interpreted on literal / unkeyed / keyed specifiers (K1)",
+ "C19": ("reachability of the '*' test from both quantity readers (Q2); evaluation of the minus-sign condition on -0.0, +/-inf, +/-NaN (S1); one-local rule for the precision-cut bytes (B1); consume_length interpreted for every next character; has_key interpreted on literal / unkeyed / keyed specifiers (K1)",
          " (S1) as C18.S1 for %-formatting; (B1) bytes are padded by the length that is written; (K1) `%()s` is a keyed specifier."),
  "C18": ("arm selection of the presentation-type dispatch of format_float/format_int for every FormatType value by pattern evaluation (T3); one-level interpretation of private helper methods in the grouped-padding rule (A3)",
          " (T3) floats reject d b o x X s c and 'N', ints reject s and 'N', everything else is formatted."),
